@@ -113,7 +113,7 @@ Section Sub.
     | Some (i, e, o) =>
       exists A ch B, sl = A ++ Some (e, ch) :: B /\ i = length A /\ out_spec ch o /\ o <> ONotFound /\
                      ~ In nm (kleaves (kids_of A)) /\ ~ In nm (kleaves (kids_of B)) /\ In nm (leaves ch) /\
-                     wf_sub ch = true /\ no_single_sub ch = true
+                     wf_sub ch = true /\ no_single_sub ch = true /\ hit nm (rm_sub nm) ch = o
     end.
   Proof.
     intros IH Hw Hs Hnd. rewrite Forall_forall in IH.
@@ -183,7 +183,7 @@ Section SubInd.
     generalize (node_hit nm sl IH Hwk Hsk Hndk).
     destruct (first_hit (hit nm (rm_sub nm)) 0 sl) as [[[i e] o]|].
     2:{ intros Hnot. simpl. rewrite leaves_unfold. destruct (kids_of sl); [congruence|auto]. }
-    intros [A [ch [B [-> [-> [Ho [Hnf [HA [HB [Hin [Hwch Hsch]]]]]]]]]]].
+    intros [A [ch [B [-> [-> [Ho [Hnf [HA [HB [Hin [Hwch [Hsch Heqo]]]]]]]]]]]].
     assert (Hint : In nm (leaves (UNode n c (A ++ Some (e, ch) :: B)))).
     { rewrite leaves_unfold. kidsplit.
       destruct (kids_of A ++ (e, ch) :: kids_of B) eqn:E0; [destruct (kids_of A); discriminate|].
